@@ -276,6 +276,19 @@ func parentMain(id, tier string) int {
 			defer func() { <-sem }()
 			from := int64(0)
 			hangs := 0
+			exe := exe
+			if j.proc.exe != "" {
+				exe = filepath.Join(verifDir, "bin", j.proc.exe)
+				if _, err := os.Stat(exe); err != nil {
+					mu.Lock()
+					total.Incomplete = true
+					if j.shard == 0 {
+						total.Notes = append(total.Notes, fmt.Sprintf("phase %s skipped: bin/%s is not built", j.proc.name, j.proc.exe))
+					}
+					mu.Unlock()
+					return
+				}
+			}
 			for attempt := 0; attempt < 12; attempt++ {
 				r, crash := runWorker(exe, id, tier, j, nshards, from, tmp)
 				mu.Lock()
